@@ -91,11 +91,13 @@ func ruleC04Close(p *Prog, a *Anchors, r *Report) {
 						}
 					}
 				}
-				sc, isCall := src.(*ssa.Call)
-				if !isCall {
-					continue
-				}
-				if callee := sc.Common().StaticCallee(); callee != nil && !p.InPkg(callee) {
+				// or the reader is a parameter of a package helper (readAndClose) whose callers pass such a reader
+				var sites []actualSite
+				if sc, isCall := src.(*ssa.Call); !isCall {
+					if sites = u6LoaderReaderSites(p, rd, 0); len(sites) == 0 {
+						continue
+					}
+				} else if callee := sc.Common().StaticCallee(); callee != nil && !p.InPkg(callee) {
 					continue
 				}
 				if it, isI := rd.Type().Underlying().(*types.Interface); !isI || it.NumMethods() == 0 {
@@ -122,6 +124,15 @@ func ruleC04Close(p *Prog, a *Anchors, r *Report) {
 					for _, x := range bb.Instrs {
 						if d, isD := x.(*ssa.Defer); isD && closesReader(p, d, rd, 0) {
 							ok2 = true
+						}
+					}
+				}
+				if !ok2 && len(sites) > 0 {
+					// the helper leaves the release to its callers: each of them has to do it behind the call
+					ok2 = true
+					for _, s := range sites {
+						if !u6ReleasedAfter(p, s.site, s.val) {
+							ok2 = false
 						}
 					}
 				}
